@@ -155,6 +155,7 @@ func genStmts() string {
 			{"mpc/bls/mpc.go", "TBLS.waitForCommitmentDistribution"}, {"mpc/bls/mpc.go", "TBLS.waitForDeCommitmentDistribution"}, {"mpc/bls/mpc.go", "TBLS.combineShares"},
 			{"mpc/bls/mpc.go", "TBLS.commitPhase"}, {"mpc/bls/mpc.go", "TBLS.revealPhase"}, {"mpc/bls/mpc.go", "TBLS.shareDistribution"},
 			{"mpc/bls/mpc.go", "TBLS.validateCommitments"}, {"mpc/bls/mpc.go", "TBLS.assembleThresholdPublicKey"}, {"mpc/bls/mpc.go", "TBLS.Init"},
+			{"mpc/bls/mpc.go", "TBLS.monitorContextTimeout"}, {"mpc/ps/tps.go", "TPS.monitorContextTimeout"},
 			{"mpc/ps/tps.go", "TPS.OnMsg"}, {"mpc/ps/tps.go", "TPS.KeyGen"}, {"mpc/ps/tps.go", "TPS.waitForShareDistribution"},
 			{"mpc/ps/tps.go", "TPS.waitForCommitmentDistribution"}, {"mpc/ps/tps.go", "TPS.waitForDeCommitmentDistribution"}, {"mpc/ps/tps.go", "TPS.combineShares"},
 			{"mpc/ps/tps.go", "TPS.commitPhase"}, {"mpc/ps/tps.go", "TPS.revealPhase"}, {"mpc/ps/tps.go", "TPS.shareDistribution"},
@@ -162,7 +163,8 @@ func genStmts() string {
 		{"dkgps", []fref{{"mpc/ps/tps.go", "TPS.OnMsg"}, {"mpc/ps/tps.go", "TPS.KeyGen"}, {"mpc/ps/tps.go", "TPS.waitForShareDistribution"},
 			{"mpc/ps/tps.go", "TPS.waitForCommitmentDistribution"}, {"mpc/ps/tps.go", "TPS.waitForDeCommitmentDistribution"}, {"mpc/ps/tps.go", "TPS.combineShares"},
 			{"mpc/ps/tps.go", "TPS.commitPhase"}, {"mpc/ps/tps.go", "TPS.revealPhase"}, {"mpc/ps/tps.go", "TPS.shareDistribution"},
-			{"mpc/ps/tps.go", "TPS.validateCommitments"}, {"mpc/ps/tps.go", "TPS.assembleThresholdPublicKey"}, {"mpc/ps/tps.go", "TPS.Init"}}},
+			{"mpc/ps/tps.go", "TPS.validateCommitments"}, {"mpc/ps/tps.go", "TPS.assembleThresholdPublicKey"}, {"mpc/ps/tps.go", "TPS.Init"},
+			{"mpc/ps/tps.go", "TPS.monitorContextTimeout"}}},
 		{"box", []fref{{"msg/msgbox.go", "Box.HandleMessage"}, {"msg/msgbox.go", "Box.storeOrForward"}, {"msg/msgbox.go", "Box.Send"},
 			{"msg/msgbox.go", "Box.getOrCreateMessagesByTopic"}, {"msg/msgbox.go", "Box.markTopicForSender"}, {"msg/msgbox.go", "storedMessages.add"},
 			{"msg/msgbox.go", "Box.maybeGC"}, {"msg/msgbox.go", "Box.mark"}, {"msg/msgbox.go", "Box.sweep"}, {"msg/msgbox.go", "Box.startClock"}}},
